@@ -19,14 +19,15 @@ EXTRACT = "theories/Extract/ExtractGrammar.vo"
 # deviation bits of Grammar/Deviations.v
 BITS = {
     1: "kf-c03-id-runs", 2: "kf-c03-dollar-ids", 3: "kf-c03-group-rule-commit", 4: "kf-c03-bytes-no-escapes",
-    5: "kf-c03-bsqual-case", 6: "kf-c03-ctlop-prefix", 7: "kf-c03-radix-float", 8: "kf-c03-bytes-member-key",
+    5: "kf-c03-bsqual-case", 7: "kf-c03-radix-float",       # bit 6 (control-name prefix matching) repaired in 8d55c20
+    8: "kf-c03-bytes-member-key",
     9: "kf-c03-implicit-skip", 10: "kf-c03-tag-forms", 11: "kf-c03-control-chars", 12: "kf-c03-escape-scalars",
     13: "kf-c03-paren-entry-commit",
 }
 SPEC = 0                      # mask 0: the specification (RFC + documented leniencies, names as maximal tokens)
 # deviation 8 (byte-string member key, a BRIDGE rejection that does not apply inside the unconverted type of #6.<type>)
 # is not context-free; it is recognised by the bridge's own message together with the bridge model's verdict instead
-CLASSIFY_BITS = [k for k in (1, 2, 3, 4, 5, 6, 7, 9, 10, 11, 12, 13)]
+CLASSIFY_BITS = [k for k in (1, 2, 3, 4, 5, 7, 9, 10, 11, 12, 13)]
 ALL = sum(1 << k for k in CLASSIFY_BITS)
 
 # bridge rejections that are about literal VALUES or duplicate definitions (properties C07 / C12), not about the grammar
